@@ -162,6 +162,7 @@ func init() {
 			case "times":
 				var h uint64
 				for a := c.Lo; a < c.Hi; a++ {
+					r.Heartbeat()
 					// incremental reference row: a*b for all b via a*(b) using table mul, plus slow check on a diagonal
 					for b := uint32(0); b < 65536; b++ {
 						got := uint16(gf2p16.T(a).Times(gf2p16.T(b)))
